@@ -466,6 +466,14 @@ func (vc *VC) foldPureLib(name string, args []string) (Term, bool) {
 		return "", false
 	}
 	switch name {
+	case "strings.HasPrefix":
+		if len(args) == 2 {
+			if s, ok := lit(args[0]); ok {
+				if p, ok := lit(args[1]); ok {
+					return Term{fmt.Sprint(strings.HasPrefix(s, p)), SBool}, true
+				}
+			}
+		}
 	case "strings.ToUpper", "strings.ToLower":
 		if len(args) == 1 {
 			if s, ok := lit(args[0]); ok {
@@ -583,4 +591,47 @@ func init() {
 		ex.havocReachable(st, args[2], nil)
 		k(st, tv(errv), false)
 	}
+}
+
+// prefixAxioms: strings.HasPrefix on the text fmt.Sprintf builds from a constant format. The text starts with the
+// format's literal head (what precedes the first verb): a prefix of that head is a prefix of the text, and a literal
+// that differs from the head before either ends is not. Literals against literals are computed.
+func (vc *VC) prefixAxioms() string {
+	hp := libFuncName("strings.HasPrefix", 0, []string{SStr, SStr})
+	if !vc.declSet[hp] {
+		return ""
+	}
+	var b strings.Builder
+	lits := append([]string{""}, vc.strOrder...)
+	name := func(s string) string { return vc.strLit(s).S }
+	for _, p := range lits {
+		for _, s := range lits {
+			fmt.Fprintf(&b, "(assert (= (%s %s %s) %v))\n", hp, name(s), name(p), strings.HasPrefix(s, p))
+		}
+		for _, fn := range sortedKeys(vc.sprintfFormats) {
+			format := vc.sprintfFormats[fn]
+			head := format
+			if i := strings.Index(format, "%"); i >= 0 {
+				head = format[:i]
+			}
+			var arity int
+			fmt.Sscanf(fn[strings.LastIndex(fn, "_")+1:], "%d", &arity)
+			if arity == 0 {
+				continue
+			}
+			var vars, decls []string
+			for i := 0; i < arity; i++ {
+				vars = append(vars, fmt.Sprintf("a%d", i))
+				decls = append(decls, fmt.Sprintf("(a%d Any)", i))
+			}
+			call := app(fn, vars...)
+			switch {
+			case strings.HasPrefix(head, p):
+				fmt.Fprintf(&b, "(assert (forall (%s) (! (%s %s %s) :pattern (%s))))\n", strings.Join(decls, " "), hp, call, name(p), call)
+			case !strings.HasPrefix(p, head):
+				fmt.Fprintf(&b, "(assert (forall (%s) (! (not (%s %s %s)) :pattern (%s))))\n", strings.Join(decls, " "), hp, call, name(p), call)
+			}
+		}
+	}
+	return b.String()
 }
